@@ -516,8 +516,12 @@ impl Rasn {
                 _ => TokenStream::new(),
             }
         } else {
+            // a constrained type reference may well refer to an INTEGER type: no lower bound of 0
             self.format_range_annotations(
-                matches!(member.ty(), ASN1Type::Integer(_)),
+                matches!(
+                    member.ty(),
+                    ASN1Type::Integer(_) | ASN1Type::ElsewhereDeclaredType(_)
+                ),
                 &all_constraints,
             )?
         };
